@@ -431,8 +431,9 @@ def _copies_copy(ctx):
         r2_operands_encoded(ctx)
 
 
-from ..through_time import make_rule as _mk_tt
+from ..through_time import make_rule as _mk_tt, make_t2 as _mk_t2
 _through_time = _mk_tt("C20")
+_small_edits = _mk_t2("C20")
 
 RULES = [
     ("C20-R1", r1_param_mutators),
@@ -445,4 +446,5 @@ RULES = [
     ("C20-R8", _copies_copy),
     ("C20-R9", r9_mutable_defaults),
     ("C20-T1", _through_time),
+    ("C20-T2", _small_edits),
 ]
